@@ -65,6 +65,11 @@ def handle (j : Json) : Except String Json := do
     return exceptToJson treeToJson
       (generate reg (← argNat j "fuel") (← argKids j "procs") (← argKids j "steps")
         (← argVal j "topology") (← argVal j "init"))
+  | "generateStore" =>
+    let reg ← argReg j
+    return exceptToJson treeToJson
+      (generateStore reg (← argNat j "fuel") (← argKids j "kids") (← argKids j "procs")
+        (← argKids j "steps") (← argVal j "topology") (← argVal j "state") (← argVal j "cfgInit"))
   | "engineInitial" =>
     return (engineInitial (← argVal j "state") (← argVal j "init")).toJson
   | "leafFold" =>
